@@ -158,7 +158,7 @@ func (t *T) expr(e ast.Expr) (string, bool, error) {
 		if oa || ob {
 			return "", false, t.errf(e, "operator on a possibly nil value: %s", t.src(e))
 		}
-		ops := map[token.Token]string{token.ADD: "Z.add", token.SUB: "Z.sub", token.MUL: "Z.mul", token.LSS: "Z.ltb", token.LEQ: "Z.leb",
+		ops := map[token.Token]string{token.ADD: "Z.add", token.SUB: "Z.sub", token.MUL: "Z.mul", token.REM: "Z.rem", token.QUO: "Z.quot", token.LSS: "Z.ltb", token.LEQ: "Z.leb",
 			token.GTR: "Z.gtb", token.GEQ: "Z.geb", token.LAND: "andb", token.LOR: "orb"}
 		if f, ok := ops[x.Op]; ok {
 			return fmt.Sprintf("(%s %s %s)", f, a, b), false, nil
@@ -713,6 +713,103 @@ func translate(p *tr.Pkg, cfg *fnCfg) (string, error) {
 	return fmt.Sprintf("(* %s *)\nDefinition %s %s%s : %s :=\n  %s.\n", cfg.key, cfg.name, cis, cfg.params, cfg.result, body), nil
 }
 
+// setChild translates parentWay.SetChild / parentRelation.SetChild into a function on one reference:
+//   if child == nil { return }            -> the caller's None case (set_child)
+//   X[idx].F = child.G                    -> field F of the new reference is (c_g c)
+// Statements that only maintain the relation's way cache (r.ways, used for the multipolygon
+// orientation, property C16) are skipped and listed in a comment.
+func setChild(p *tr.Pkg, key, name string) (string, error) {
+	fd := p.FuncDecls()[key]
+	if fd == nil {
+		return "", fmt.Errorf("%s: not found in source", key)
+	}
+	src := func(n ast.Node) string {
+		var b bytes.Buffer
+		printer.Fprint(&b, p.Fset, n)
+		return strings.Join(strings.Fields(b.String()), " ")
+	}
+	if len(fd.Type.Params.List) != 2 {
+		return "", fmt.Errorf("%s: unexpected parameters", key)
+	}
+	idx, child := fd.Type.Params.List[0].Names[0].Name, fd.Type.Params.List[1].Names[0].Name
+	onlyWays := func(n ast.Node) bool {
+		ok := true
+		ast.Inspect(n, func(m ast.Node) bool {
+			if as, isAs := m.(*ast.AssignStmt); isAs {
+				for _, l := range as.Lhs {
+					if !strings.Contains(src(l), ".ways") {
+						ok = false
+					}
+				}
+			}
+			if _, isRet := m.(*ast.ReturnStmt); isRet {
+				ok = false
+			}
+			return true
+		})
+		return ok
+	}
+	fields := map[string]string{}
+	var skipped []string
+	nilGuard := false
+	for _, st := range fd.Body.List {
+		switch x := st.(type) {
+		case *ast.IfStmt:
+			if src(x.Cond) == child+" == nil" && len(x.Body.List) == 1 && x.Else == nil {
+				if r, ok := x.Body.List[0].(*ast.ReturnStmt); ok && len(r.Results) == 0 {
+					nilGuard = true
+					continue
+				}
+			}
+			if onlyWays(x) {
+				skipped = append(skipped, src(x.Cond))
+				continue
+			}
+			return "", fmt.Errorf("%s: %s: unsupported if statement", key, p.Pos(x))
+		case *ast.AssignStmt:
+			if len(x.Lhs) != 1 || len(x.Rhs) != 1 || x.Tok != token.ASSIGN {
+				return "", fmt.Errorf("%s: %s: unsupported assignment", key, p.Pos(x))
+			}
+			if !nilGuard {
+				return "", fmt.Errorf("%s: %s: assignment before the nil guard", key, p.Pos(x))
+			}
+			lsel, ok1 := x.Lhs[0].(*ast.SelectorExpr)
+			rsel, ok2 := x.Rhs[0].(*ast.SelectorExpr)
+			if !ok1 || !ok2 {
+				return "", fmt.Errorf("%s: %s: unsupported assignment form", key, p.Pos(x))
+			}
+			ix, ok := lsel.X.(*ast.IndexExpr)
+			if !ok || src(ix.Index) != idx || src(rsel.X) != child {
+				return "", fmt.Errorf("%s: %s: unsupported assignment form", key, p.Pos(x))
+			}
+			cf, ok := childFields[rsel.Sel.Name]
+			if !ok {
+				return "", fmt.Errorf("%s: %s: child field %s is not modelled", key, p.Pos(x), rsel.Sel.Name)
+			}
+			fields[lsel.Sel.Name] = fmt.Sprintf(cf, "c")
+		default:
+			return "", fmt.Errorf("%s: %s: unsupported statement", key, p.Pos(st))
+		}
+	}
+	out := fmt.Sprintf("(* %s", key)
+	if len(skipped) > 0 {
+		out += "; skipped (way cache for the orientation, C16): if " + strings.Join(skipped, "; if ")
+	}
+	out += " *)\nDefinition " + name + " (c : child) (r : ref) : ref :=\n  mkRef (r_id r)"
+	for _, f := range [][2]string{{"Version", "(r_version r)"}, {"ChangesetID", "(r_changeset r)"}, {"Lat", "(r_lat r)"}, {"Lon", "(r_lon r)"}} {
+		if v, ok := fields[f[0]]; ok {
+			out += " " + v
+			delete(fields, f[0])
+		} else {
+			out += " " + f[1]
+		}
+	}
+	if len(fields) != 0 {
+		return "", fmt.Errorf("%s: assignments to fields that are not modelled: %v", key, fields)
+	}
+	return out + " (r_orient r).\n", nil
+}
+
 // commitInfoStart reads the arguments of  var CommitInfoStart = time.Date(y, mo, d, h, mi, s, ns, time.UTC)
 func commitInfoStart(p *tr.Pkg) (string, error) {
 	for _, f := range p.Files {
@@ -787,12 +884,18 @@ func main() {
 	root := emit(".", "github.com/paulmach/osm", []*fnCfg{
 		{key: "updatesSortIndex.Less", name: "gen_less_index", params: "(a_i a_j : update)", result: "bool", elem: true, noCis: true},
 	})
+	// the constant goes to its own file: the case checkers depend on it alone
+	consts := "(* GENERATED by /verif/translator (cmd/annotate) from /repo — do not edit. *)\nFrom Coq Require Import ZArith List.\nImport ListNotations.\nOpen Scope Z_scope.\n\n"
 	if s, err := commitInfoStart(root); err != nil {
-		fmt.Fprintf(&text, "(* NOT TRANSLATED CommitInfoStart: %v *)\n\n", err)
+		consts += fmt.Sprintf("(* NOT TRANSLATED CommitInfoStart: %v *)\n", err)
 		fmt.Fprintln(os.Stderr, "translator annotate:", err)
 		failed++
 	} else {
-		text.WriteString(s + "\n")
+		consts += s
+	}
+	if err := tr.Emit(filepath.Join(out, "GenAnnotateConst.v"), []byte(consts)); err != nil {
+		fmt.Fprintln(os.Stderr, err)
+		os.Exit(1)
 	}
 	emit("annotate/shared", "github.com/paulmach/osm/annotate/shared", []*fnCfg{
 		{key: "updateTimestamp", name: "gen_update_timestamp", params: "(v_timestamp v_committed : Z)", result: "Z"},
@@ -808,6 +911,21 @@ func main() {
 			params: "(v_current : option child) (v_child : list child) (v_nextParent : option parent) (v_opts : opts)",
 			optPar: map[string]bool{"current": true, "nextParent": true}, result: "res Z", partial: true},
 	})
+	ann, err := tr.Load(filepath.Join(repo, "annotate"), "github.com/paulmach/osm/annotate")
+	if err != nil {
+		fmt.Fprintln(os.Stderr, "translator annotate:", err)
+		os.Exit(1)
+	}
+	for _, sc := range [][2]string{{"parentWay.SetChild", "gen_way_set_child"}, {"parentRelation.SetChild", "gen_relation_set_child"}} {
+		s, err := setChild(ann, sc[0], sc[1])
+		if err != nil {
+			fmt.Fprintf(&text, "(* NOT TRANSLATED %s: %v *)\n\n", sc[0], err)
+			fmt.Fprintln(os.Stderr, "translator annotate:", err)
+			failed++
+			continue
+		}
+		text.WriteString(s + "\n")
+	}
 	if err := tr.Emit(filepath.Join(out, "GenAnnotate.v"), text.Bytes()); err != nil {
 		fmt.Fprintln(os.Stderr, err)
 		os.Exit(1)
